@@ -484,3 +484,24 @@ End Meta.
 
 Lemma series_verdict_generated f : In f series_formats -> if sound_fmt f then SeriesOk f else SeriesBroken f.
 Proof. intro Hin. apply series_verdict. pose proof generated_formats_f32 as HF. rewrite Forall_forall in HF. apply HF. exact Hin. Qed.
+
+(** * FilterbankBlock.to_file: float32 data at the generated depth; needs nothing of the configuration *)
+Lemma to_file_roundtrip cfg nchans nsamps h vals : 1 <= nchans -> 1 <= nsamps -> len vals = nsamps * nchans ->
+  Forall (in_dtype F32) vals ->
+  exists f, write_fil cfg to_file_nbits h (mknd F32 vals) = Some f /\ hdr f = h /\
+            8 * datalen f = nsamps * nchans * to_file_nbits /\ read_fil to_file_nbits nchans f = Some (nsamps, vals).
+Proof. intros Hc Hn Hl HF. unfold to_file_nbits.
+  assert (Hd : In 32 depths) by (unfold depths; cbn; tauto).
+  assert (HR : Forall (repr_at 32) (nd_vals (mknd F32 vals))) by (cbn [nd_vals]; revert HF; apply Forall_impl; intros v Hv; exact Hv).
+  pose proof (roundtrip_sound (mkcfg AsIs Convert true) eq_refl 32 nchans nsamps h (mknd F32 vals) Hd Hc Hn ltac:(lia) Hl HR) as R.
+  unfold write_fil in *. rewrite cwrite_f32 in *. destruct R as [R1 [R2 R3]].
+  eexists. split; [reflexivity|]. split; [exact R1|]. split; [exact R2 | exact R3]. Qed.
+
+(** * the configuration of the pinned tree (cwrite hands the array to tofile as it is; to_dat writes a SIGPROC header
+    that from_dat does not skip), whatever the source says today *)
+Definition pinned_cfg : wcfg := mkcfg AsIs AsIs true.
+Definition pinned_dat : sfmt := mkfmt true true F32 false (Some F32) false.
+Lemma pinned_cwrite_refuted : WidthRefuted pinned_cfg /\ FilRefuted pinned_cfg.
+Proof. split; [apply width_unsound | apply roundtrip_unsound]; reflexivity. Qed.
+Lemma pinned_dat_refuted : SeriesBroken pinned_dat.
+Proof. apply series_unsound; [split; [reflexivity | left; reflexivity] | reflexivity]. Qed.
